@@ -298,13 +298,13 @@ theorem Tree.decode_eq : (t : Tree) → t.okAll → ∀ (fuel : Nat), t.need ≤
     simp only [Tree.need] at hf
     obtain ⟨f, rfl⟩ : ∃ f, fuel = f + 2 := ⟨fuel - 2, by omega⟩
     simp only [Tree.toParam, Tree.pair, Pair.map, Pair.ofObj]
-    exact decodeParam_obj o hok.1 f d hfit
+    exact decodeParam_obj o hok.1 f d hfit.1 hfit.2
   | .const o v, hok, fuel, hf, d, _, hfit => by
     simp only [Tree.okAll] at hok
     simp only [Tree.need] at hf
     obtain ⟨f, rfl⟩ : ∃ f, fuel = f + 1 := ⟨fuel - 1, by omega⟩
     simp only [Tree.toParam, Tree.pair, Pair.map, Pair.ofObj]
-    exact decodeParam_const_obj o hok.1 v f d hfit
+    exact decodeParam_const_obj o hok.1 v f d hfit.1 hfit.2
   | .struct n bp kids, hok, fuel, hf, d, hcb, hfit => by
     simp only [Tree.okAll] at hok
     simp only [Tree.need] at hf
